@@ -484,6 +484,48 @@ class ExtraOps:
         self.eval_and_check(ent, op)
         self.logev(w.op_index, "rawtree", str(c1))
 
+    def op_conform_inner(self, op):
+        """sql.Engine.conform applied to an inner, locked node of a SQL tree (a leaf or a materialization, possibly
+        carrying a cached payload): the node must stay the identical object inside the conformed result (C15), the
+        result must be idempotent under conform and evaluate to the node's rows (C17)."""
+        from .execu import Entry
+        from .oracles import all_nodes
+
+        t = self.ref(op["t"])
+        if t is None or not M.is_sql(t.mv.engine):
+            return
+        w = self.w
+        cands = [n for n in all_nodes(t.rel) if isinstance(n, (LeafRelation, Materialization)) and isinstance(n.engine, sql.Engine)]
+        if not cands:
+            return
+        node = cands[op.get("node", 0) % len(cands)]
+        try:
+            c1 = w.sql.conform(node)
+            c2 = w.sql.conform(c1)
+        except Exception as e:  # noqa
+            self.violate("conform_exception", {"node": str(node)[:200]}, entry=t, exc=e)
+            return
+        self.stats["conform_inner"] += 1
+        ent = Entry(c1, t.mv, op, [t])
+        if c2 is not c1:
+            self.violate("conform_not_idempotent", {"node": str(node)[:200]}, entry=ent)
+        if not any(n is node for n in all_nodes(c1)):
+            self.violate("locked_rewritten", {"node": str(node)[:200], "op": op, "via": "sql.Engine.conform"}, entry=ent)
+        if node.payload is not None:
+            self.probes["conform_of_payload_node"] += 1
+            try:
+                want = self.payload_rows(node)
+                got = w.run_sql(c1)
+            except Exception as e:  # noqa
+                self.violate("conform_exception", {"node": str(node)[:200], "why": "conformed node cannot be evaluated"},
+                             entry=ent, exc=e)
+                return
+            cols = sorted(c.qualified_name for c in node.columns)
+            if M.bag(want, cols) != M.bag(got, cols):
+                self.violate("rows_mismatch", {"what": "conform changed the rows of a cached node",
+                                               "expected": sorted(M.bag(want, cols).items())[:6],
+                                               "got": sorted(M.bag(got, cols).items())[:6]}, entry=ent)
+
     def check_select_coherence(self, ent):
         from lsst.daf.relation.sql import Select
 
